@@ -307,11 +307,12 @@ def assemble(flavour, cfg, files, active_units, ext_out, auto_weak=()):
     return text, meta
 
 
-def run_extractor(flavour, cfg, files, units, bare=(), opaque=(), vacuity=False, demoted=()):
+def run_extractor(flavour, cfg, files, units, bare=(), opaque=(), vacuity=False, demoted=(), no_inline=False):
     os.makedirs(BUILD, exist_ok=True)
     ecfg, active = build_extractor_config(flavour, cfg, files, units, bare, demoted)
     ecfg['opaque_auto'] = list(opaque)
     ecfg['vacuity_probe'] = bool(vacuity)
+    ecfg['no_inline'] = bool(no_inline)
     tag = flavour + ('_vac' if vacuity else '')
     cpath = os.path.join(BUILD, f'extract_{tag}.cfg.json')
     opath = os.path.join(BUILD, f'extract_{tag}.out.json')
@@ -615,10 +616,11 @@ def full_run(flavour, cfg, files, units, rlimit=40, seed=0):
     bare = set()
     opaque = set()
     demoted = set()
+    inline_off = False
     annotated = {u['id'] for u in units if u['closures'] or u['loops'] or u['hints'] or u['strslice'] or u['body_open']}
     unit_ids = {u['id'] for u in units}
     for _ in range(12):
-        ext, active = run_extractor(flavour, cfg, files, units, bare=tuple(bare), opaque=tuple(sorted(opaque)), demoted=tuple(sorted(demoted)))
+        ext, active = run_extractor(flavour, cfg, files, units, bare=tuple(bare), opaque=tuple(sorted(opaque)), demoted=tuple(sorted(demoted)), no_inline=inline_off)
         text, meta, gen, res, weak = verify_with_auto_weak(flavour, cfg, files, active, ext, rlimit, seed)
         hid = region_of_hard_error(res, meta, os.path.basename(gen))
         if hid is not None and (hid.startswith('auto:') or hid.startswith('item:')) and hid not in opaque:
@@ -641,19 +643,25 @@ def full_run(flavour, cfg, files, units, rlimit=40, seed=0):
         if uid in unit_ids and uid not in demoted and uid in private and error_in_contract_text(res, meta, os.path.basename(gen)):
             demoted.add(uid)
             continue
+        # (e) the text of a helper written out by rule I1 may be what does not compile: once more
+        # without I1 (the error then sits in the helper itself and (c) applies)
+        if not inline_off and any(fo.get('inlined_helpers') for fo in ext['files'].values()):
+            inline_off = True
+            continue
         break
     ext['demoted_units'] = sorted(demoted)
+    ext['inline_off'] = inline_off
     ext['opaque_auto'] = sorted(opaque)
     return ext, active, text, meta, gen, res, weak, sorted(bare)
 
 
-def vacuity_run(flavour, cfg, files, units, bare, opaque, weak, rlimit=40, demoted=()):
+def vacuity_run(flavour, cfg, files, units, bare, opaque, weak, rlimit=40, demoted=(), no_inline=False):
     """second Verus run on the same extraction with `assert(false)` woven in as the first
     statement of every verified unit body: each of these assertions must FAIL.  One that is
     proved means the unit's precondition (with the lemmas and axioms in scope) is contradictory,
     i.e. everything about that unit would be proved vacuously.
     -> (number of probes, ids of units whose probe was PROVED)"""
-    ext, active = run_extractor(flavour, cfg, files, units, bare=tuple(bare), opaque=tuple(opaque), vacuity=True, demoted=tuple(demoted))
+    ext, active = run_extractor(flavour, cfg, files, units, bare=tuple(bare), opaque=tuple(opaque), vacuity=True, demoted=tuple(demoted), no_inline=no_inline)
     text, meta = assemble(flavour, cfg, files, active, ext, auto_weak=weak)
     gen = os.path.join(BUILD, f'gen_{flavour}_vac.rs')
     open(gen, 'w').write(text)
